@@ -59,6 +59,21 @@ def gen(rng, tier):
                 # make sure A has a container at that key so the merge recurses
                 if isinstance(cur, dict) and "m" in cur and rng.chance(0.8):
                     pass
+            if rng.chance(0.12) and isinstance(b, dict) and "m" in b:
+                # a *Config source some of whose objects (the root, or one below it) have lost all their settings again: still
+                # objects, but empty ones - merging them adds nothing and, under every policy, replaces nothing
+                ps = [opt("PathSep", ".")]
+                if rng.chance(0.4) or not any(isinstance(v, dict) and "m" in v and v["m"] for _, v in b["m"]):
+                    rms = [{"name": k, "idx": -1, "opts": ps} for k, _ in b["m"]]
+                    bb = M([])
+                else:
+                    key = rng.pick([k for k, v in b["m"] if isinstance(v, dict) and "m" in v and v["m"]])
+                    sub = dict(b["m"])[key]
+                    rms = [{"name": key + "." + k2, "idx": -1, "opts": ps} for k2, _ in sub["m"]]
+                    bb = M([(k, (M([]) if k == key else v)) for k, v in b["m"]])
+                if all("." not in k and k for k, _ in b["m"]) and all("." not in r["name"].split(".", 1)[-1] for r in rms):
+                    src, rep = {"cm": {"a": b, "optsA": [], "steps": [], "removes": rms}}, "emptied-config"
+                    b = bb
             reps.append(rep)
             steps.append({"b": src, "opts": [opt(pol)] if pol else [], "_pol": pol})
             cur = b
@@ -89,6 +104,20 @@ def gen(rng, tier):
                 if isinstance(b, dict) and ("m" in b or "a" in b):
                     steps.append({"b": b, "opts": []})
             yield {"k": "merge", "a": a, "optsA": [], "steps": steps, "_tag": "merge/self", "_sig": "self|%s|%s" % (pol, shape_of(a)), "_nt": True}
+    # ... and the halves of a list doubled by a self-merge are separate settings: an index-wise merge that names one element
+    # changes that element only
+    for pol in ("Append", "Prepend"):
+        for _ in range(12 if tier == "quick" else 80):
+            k = rng.pick(KEYS)
+            nel = 1 + rng.below(3)
+            a = M([(k, A([M([("x", U(i)), ("y", S("o%d" % i))]) if rng.chance(0.8) else A([U(i)]) for i in range(nel)])), ("z", U(1))])
+            tgt = rng.below(2 * nel)
+            patch = A([None] * tgt + [M([("x", U(90 + tgt))]) if rng.chance(0.8) else A([U(77)])])
+            steps = [{"self": True, "b": None, "opts": [opt(pol)]}, {"b": M([(k, patch)]), "opts": []}]
+            if rng.chance(0.4):
+                steps.append({"b": M([(k, A([None] * rng.below(2 * nel) + [M([("y", S("p"))])]))]), "opts": []})
+            yield {"k": "merge", "a": a, "optsA": [], "steps": steps, "_tag": "merge/self-then-index",
+                   "_sig": "selfidx|%s|%d|%d" % (pol, nel, tgt), "_nt": True}
 
 
 def fix_candidate(cand, base):
